@@ -718,6 +718,15 @@ BAD = {
         "{% echo x | %}", "{% echo x | nosuch %}", "{% echo | x %}", "{% cycle %}", "{% cycle g: %}", "{% cycle , %}", "{% cycle 'a', | %}", "{% increment %}", "{% increment 'a' %}", "{% decrement %}", "{% decrement | %}",
         "{% ifchanged %}a", "{% ifchanged x %}a{% endifchanged %}", "{% comment %}a", "{% raw %}a", "{% doc %}a",
     ],
+    # names where a tag expects a plain identifier: bracketed, quoted, numeric, dotted, with a question mark
+    "targets": [
+        "{% assign [x] = 1 %}a{{ x }}", "{% assign [x.y] = 'v' %}a", "{% assign ['x'] = 1 %}{{ x }}", "{% assign [0] = 1 %}a", "{% assign x? = 1 %}{{ x? }}", "{% assign x[0] = 1 %}a", "{% assign 1 = 1 %}a",
+        "{% capture [x] %}a{% endcapture %}b", "{% capture x? %}a{% endcapture %}{{ x? }}", "{% capture x.y %}a{% endcapture %}b", "{% capture [x.y] %}a{% endcapture %}b",
+        "{% for [i] in xs %}a{% endfor %}b", "{% for i? in xs %}{{ i? }}{% endfor %}b", "{% for i in [xs] %}a{% endfor %}b", "{% tablerow [i] in xs %}a{% endtablerow %}", "{% for [i.j] in xs %}a{% endfor %}b",
+        "{% increment [x] %}a", "{% decrement x.y %}a", "{% increment x? %}a", "{% cycle [x]: 1, 2 %}a", "{% with [a]: 1 %}{{ a }}{% endwith %}b", "{% macro [f] %}a{% endmacro %}b", "{% macro f, [a] %}x{% endmacro %}{% call f %}b",
+        "{% call [f] %}b", "{% render 'p', [v]: 1 %}b", "{% include 'p', [v]: 1 %}b", "{% render 'p' with x as [v] %}b", "{% include 'p' for xs as [v] %}b", "{% liquid assign [x] = 1\n echo x %}b", "{% translate [n]: 1 %}a{% endtranslate %}b",
+        "{% block [b] %}a{% endblock %}c", "{% assign [x][y] = 1 %}a", "{% assign [[x]] = 1 %}a", "{% assign [x = 1 %}a",
+    ],
     "liquid_tag": [
         "{% liquid if %}", "{% liquid\n if x\n echo 1 %}", "{% liquid nosuch %}", "{% liquid\n else %}", "{% liquid assign x = %}", "{% liquid\n echo 'a'\n nosuch\n echo 'b' %}c", "{% liquid\n echo 'a'\n echo |\n echo 'b' %}c",
         "{% liquid\n for i in\n echo i\n endfor\n echo 'z' %}", "{% liquid\n endif %}a", "{% liquid\n break %}a", "{% liquid\n case x\n when\n echo 1\n endcase %}a", "{% liquid liquid liquid if %}",
